@@ -386,6 +386,11 @@ class World:
         self.tx.append(entry)
         if self.peer is None:
             return None
+        if tr._vloop.is_closed():
+            # the socket still exists, so the datagram leaves; but nobody will ever read the answer because the
+            # reader was registered with the selector of the loop that is gone
+            self.events.append((t, "tx-on-dead-loop", tr.tid))
+            return None
         err = self.peer.on_transmission(self, tr, index, data)
         if err is not None:
             entry[3] = True
